@@ -63,6 +63,15 @@ def check(rec, case):
             alone[p] = outcome(p, "exec")
         o = alone[p]
         if o.kind != "tree":
+            # outside the property as stated -- unless the list as a whole parses: every part ends its last logical line
+            # itself (parts end in a line end, nothing is left open), so what is rejected alone cannot become acceptable
+            # through what follows it; if it does, the parts were not parsed independently
+            w = outcome("".join(parts), "exec")
+            if w.kind == "tree" and o.kind in ("error", "tokenerror"):
+                rec.case(case, True, labels=["part-rejected-alone"], key="".join(parts))
+                cn = o.canon()
+                rec.fail(dict(case, src="".join(parts)), f"whole-accepted-though-part-rejected-alone:{o.etype}", {"part": p[:200], "alone": [str(x)[:120] for x in cn], "kinds": kinds})
+                return
             rec.exclude("part-does-not-parse-alone")
             return
         bodies.append(copy.deepcopy(o.tree.body) if parts.count(p) > 1 else o.tree.body)
@@ -149,9 +158,20 @@ def search(rec, ctx):
             s += rnd.choice(["\n", "# trailing comment\n", "\n\n", "   \n"])
         return k, s
 
+    # a statement whose logical line is closed on a later row than its last token (backslash-newline, then an empty or
+    # comment-only row), followed by a statement that could continue an expression if that line end were lost
+    FOLLOWERS = ["(y)\n", "[0]\n", "-2\n", "+x\n", "*a, b = c\n", "(a, b) = c\n", "[i for i in j]\n", "...\n", ".5\n", "not z\n", "@(p)\n", "$(ls)\n", "![q]\n", "(f!(a b))\n", "{k: v}\n", "'s' 't'\n", "if a:\n    b\n"]
+
     def gen(rnd):
         n = rnd.randint(2, 6)
         ps = [part(rnd) for _ in range(n)]
+        if rnd.random() < 0.12:
+            i = rnd.randrange(len(ps))
+            k, s = ps[i]
+            if rnd.random() < 0.5 or "\n" in s[:-1] or "#" in s or s.rstrip().endswith(":") or not s.endswith("\n"):
+                k, s = "python", rnd.choice(["q = 1\n", "f(a)\n", "r = g.h\n", "t = u[0]\n", "v = w + 1\n", "del z\n", "return_ = a if b else c\n", "e = $(ls)\n", "m = 'x'\n"])
+            s = s[:-1] + rnd.choice([" \\\n", "\\\n", "  \\\n"]) + rnd.choice(["\n", "\n", "# c\n", "   \n", "\n\n"])
+            ps[i : i + 1] = [(k, s), ("python", rnd.choice(FOLLOWERS))]
         check(rec, {"parts": [p[1] for p in ps], "kinds": [p[0] for p in ps]})
 
     drive(st.randoms(use_true_random=False), gen, ctx.budget(12000, 150000), ctx.hseed("lists"))
